@@ -14,6 +14,7 @@ package main
 
 import (
 	"fmt"
+	"math/big"
 	"os"
 	"strconv"
 	"strings"
@@ -89,7 +90,7 @@ func mbitsCase(op string, off, n int, mem string) string {
 }
 
 func exec(in string) string {
-	f := strings.Fields(in)
+	f := strings.Fields(strings.ReplaceAll(in, "_", " ")) // supporting runs print inputs with _ for blanks
 	switch f[0] {
 	case "Z", "L", "T":
 		off, _ := strconv.Atoi(f[1])
@@ -173,6 +174,31 @@ func emitMbits(g *tr.G, pat []bool, tag string) {
 	}
 }
 
+// emitBig: slices of thousands of bytes (hundreds of word-loop iterations) at three alignments,
+// one guard value; the patterns put the only non-zero bytes at the places that decide the counts.
+func emitBig(g *tr.G, n int) {
+	pats := [][]int{{}, {0}, {n - 1}, {7}, {8}, {n - 9}, {n - 8}, {n / 2}, {n/2 - 1, n/2 + 8}, {0, n - 1}}
+	for _, al := range []int{0, 1, 7} {
+		off := 8 + al
+		for pi, idx := range pats {
+			p := make([]bool, n)
+			for _, i := range idx {
+				if i >= 0 && i < n {
+					p[i] = true
+				}
+			}
+			mem := tr.Hex(memFor(off, p, 0xa5, al+pi))
+			args := " " + strconv.Itoa(off) + " " + strconv.Itoa(n) + " " + mem
+			tags := []string{"big-slice", "align" + strconv.Itoa(al)}
+			g.Emit("L"+args, true, tags...)
+			g.Emit("T"+args, true, tags...)
+			if pi < 3 {
+				g.Emit("Z"+args, true, tags...)
+			}
+		}
+	}
+}
+
 func allPatterns(n int, f func(p []bool)) {
 	p := make([]bool, n)
 	for m := 0; m < 1<<n; m++ {
@@ -201,11 +227,144 @@ var runeAlpha = []string{"a", "\x7f", "é", "\u0080", "߿", "€", "ࠀ", "￿",
 var badAlpha = []string{"a", "\x80", "\xbf", "\xc0", "\xc2", "\xe0", "\xf0", "\xff"}
 var natAlpha = []string{"0", "1", "9", "/", ":", "a"}
 
+// leadWidth is the encoded width announced by a lead byte (0 for ASCII / continuation bytes).
+func leadWidth(b byte) int {
+	switch {
+	case b >= 0xf0:
+		return 4
+	case b >= 0xe0:
+		return 3
+	case b >= 0xc0:
+		return 2
+	}
+	return 0
+}
+
 func emitTrunc(g *tr.G, s string, valid bool, tag string) {
 	for n := -1; n <= len(s)+1; n++ {
-		g.Emit("U "+strconv.Itoa(n)+" "+tr.Hex(s), len(s) > 0 && n >= 0 && n < len(s), tag)
+		tags := []string{tag}
+		if n >= 0 && n < len(s) {
+			if w := leadWidth(s[0]); w > 0 && n >= 1 && n <= w {
+				tags = append(tags, "cut-in-or-after-FIRST-multibyte-rune") // the result must be empty or that rune
+			}
+			if s[n]&0xc0 == 0x80 {
+				tags = append(tags, "cut-before-continuation-byte")
+			} else if n > 0 && s[n-1] >= 0xc0 {
+				tags = append(tags, "cut-right-after-lead-byte")
+			} else if n > 0 && s[n-1]&0xc0 == 0x80 {
+				tags = append(tags, "cut-after-complete-multibyte-rune")
+			}
+		}
+		g.Emit("U "+strconv.Itoa(n)+" "+tr.Hex(s), len(s) > 0 && n >= 0 && n < len(s), tags...)
 	}
+	// n far beyond every length (1<<62 - 1: the largest the OCaml side reads as an int)
+	g.Emit("U 4611686018427387903 "+tr.Hex(s), false, tag, "huge-n")
 	_ = valid
+}
+
+// natTags names the states of CompareNatural a pair reaches.
+func natTags(a, b string, tag string) []string {
+	tags := []string{tag}
+	if a != "" && b != "" && isDig(a[0]) != isDig(b[0]) {
+		tags = append(tags, "mixed-first-token")
+		nd := a[0]
+		if isDig(nd) {
+			nd = b[0]
+		}
+		if nd < '0' {
+			tags = append(tags, "mixed-first-token-below-0")
+		}
+	}
+	if a != b && stripZeros(a) == stripZeros(b) {
+		tags = append(tags, "equal-up-to-leading-zeros")
+	}
+	if !runsFit(a) || !runsFit(b) {
+		tags = append(tags, "run-beyond-MaxInt64")
+	}
+	return tags
+}
+
+func natTags3(a, b, c string, tag string) []string {
+	tags := []string{tag}
+	if !runsFit(a) || !runsFit(b) || !runsFit(c) {
+		tags = append(tags, "triple-with-run-beyond-MaxInt64")
+	}
+	return tags
+}
+
+func isDig(c byte) bool { return c >= '0' && c <= '9' }
+
+func eachRun(s string, f func(run string)) {
+	for i := 0; i < len(s); {
+		if !isDig(s[i]) {
+			i++
+			continue
+		}
+		j := i
+		for j < len(s) && isDig(s[j]) {
+			j++
+		}
+		f(s[i:j])
+		i = j
+	}
+}
+
+var maxInt64 = new(big.Int).SetUint64(1<<63 - 1)
+
+func runsFit(s string) bool {
+	ok := true
+	eachRun(s, func(r string) {
+		v, _ := new(big.Int).SetString(r, 10)
+		if v.Cmp(maxInt64) > 0 {
+			ok = false
+		}
+	})
+	return ok
+}
+
+func stripZeros(s string) string {
+	var sb strings.Builder
+	for i := 0; i < len(s); {
+		if !isDig(s[i]) {
+			sb.WriteByte(s[i])
+			i++
+			continue
+		}
+		j := i
+		for j < len(s) && isDig(s[j]) {
+			j++
+		}
+		r := strings.TrimLeft(s[i:j], "0")
+		if r == "" {
+			r = "0"
+		}
+		sb.WriteString(r)
+		i = j
+	}
+	return sb.String()
+}
+
+// boundaryRuns: decimal spellings around the limits of int64/uint64 and of 18/19/20 digits.
+func boundaryRuns() []string {
+	var out []string
+	add := func(v *big.Int) {
+		for d := int64(-2); d <= 2; d++ {
+			w := new(big.Int).Add(v, big.NewInt(d))
+			if w.Sign() >= 0 {
+				out = append(out, w.String())
+			}
+		}
+	}
+	two := big.NewInt(2)
+	ten := big.NewInt(10)
+	add(new(big.Int).Exp(two, big.NewInt(63), nil))
+	add(new(big.Int).Exp(two, big.NewInt(64), nil))
+	add(new(big.Int).Add(new(big.Int).Exp(two, big.NewInt(64), nil), new(big.Int).Exp(two, big.NewInt(63), nil)))
+	add(new(big.Int).Exp(two, big.NewInt(65), nil))
+	add(new(big.Int).Exp(ten, big.NewInt(18), nil))
+	add(new(big.Int).Exp(ten, big.NewInt(19), nil))
+	out = append(out, "0", "1", "2", "9", "10")
+	return out
 }
 
 func hasDigit(s string) bool { return strings.ContainsAny(s, "0123456789") }
@@ -262,7 +421,7 @@ func mutateNat(r *tr.Rand, s string) string {
 }
 
 func main() {
-	tr.Main("C20. mbits: every zero/non-zero pattern of every length 0..L (L=10 quick, 15 thorough) plus, for lengths up to 40, all-zero, one and two non-zero bytes at every position; each at all 8 alignments inside a buffer with >= 8 guard bytes on both sides, guards 0xa5 and 0x00 (the whole buffer is compared after Zero). Trunc: every cut point n in -1..len+1 of every string of up to 3 (4) runes over an 11-rune alphabet of 1-4-byte encodings at the encoding-length boundaries, of every string of up to 4 (5) bytes over 8 valid/invalid byte classes, and of random mixed strings. CompareNatural: all ordered pairs of strings of length <= 3 (4) over {0 1 9 / : a}, all triples of strings of length <= 2 and random triples of length <= 4 (order laws), random longer strings with leading zeros and digit runs up to 25 digits, paired with mutations of themselves. A case is non-trivial when the slice has a word loop or a non-zero byte / the cut is inside the string / a digit occurs.",
+	tr.Main("C20. mbits: every zero/non-zero pattern of every length 0..L (L=10 quick, 15 thorough) plus, for lengths up to 40, all-zero, one and two non-zero bytes at every position; each at all 8 alignments inside a buffer with >= 8 guard bytes on both sides, guards 0xa5 and 0x00 (the whole buffer is compared after Zero). Trunc: every cut point n in -1..len+1 of every string of up to 3 (4) runes over an 11-rune alphabet of 1-4-byte encodings at the encoding-length boundaries, of every string of up to 4 (5) bytes over 8 valid/invalid byte classes, and of random mixed strings. CompareNatural: all ordered pairs of strings of length <= 3 (4) over {0 1 9 / : a}, all triples of strings of length <= 2 and random triples of length <= 4 (order laws), random longer strings with leading zeros and digit runs up to 25 digits, paired with mutations of themselves; digit runs within 2 of 2^63, 2^64, 2^64+2^63, 2^65, 10^18, 10^19 bare, with leading zeros and embedded (all pairs, random triples; the order laws are asserted there too), runs of 19-40 zeros. mbits also: slices of 4096, 4097, 4103 (thorough: 4095, 4104, 8195, 12288) bytes at alignments 0, 1, 7. Trunc also: n = 2^62-1. A case is non-trivial when the slice has a word loop or a non-zero byte / the cut is inside the string / a digit occurs.",
 		exec, func(g *tr.G) {
 			// ---- mbits
 			L := g.Scale(10, 15)
@@ -294,6 +453,14 @@ func main() {
 				}
 				emitMbits(g, p, "random")
 			}
+			for _, n := range []int{4096, 4097, 4103} {
+				emitBig(g, n)
+			}
+			if g.Thorough() {
+				for _, n := range []int{4095, 4104, 8195, 12288} {
+					emitBig(g, n)
+				}
+			}
 			// ---- Trunc
 			allStrings(runeAlpha, g.Scale(3, 4), func(s string, k int) { emitTrunc(g, s, true, "runes") })
 			allStrings(badAlpha, g.Scale(4, 5), func(s string, k int) { emitTrunc(g, s, false, "byte-classes") })
@@ -313,7 +480,7 @@ func main() {
 			allStrings(natAlpha, g.Scale(3, 4), func(s string, k int) { small = append(small, s) })
 			for _, a := range small {
 				for _, b := range small {
-					g.Emit("C "+tr.Hex(a)+" "+tr.Hex(b), hasDigit(a) || hasDigit(b), "all-pairs")
+					g.Emit("C "+tr.Hex(a)+" "+tr.Hex(b), hasDigit(a) || hasDigit(b), natTags(a, b, "all-pairs")...)
 				}
 			}
 			var tiny []string
@@ -337,11 +504,30 @@ func main() {
 				if g.R.Chance(1, 4) {
 					b = randNat(g.R)
 				}
-				g.Emit("C "+tr.Hex(a)+" "+tr.Hex(b), true, "random-long")
+				g.Emit("C "+tr.Hex(a)+" "+tr.Hex(b), true, natTags(a, b, "random-long")...)
 				if i%4 == 0 {
 					c := mutateNat(g.R, b)
-					g.Emit("X "+tr.Hex(a)+" "+tr.Hex(b)+" "+tr.Hex(c), true, "random-long-triples")
+					g.Emit("X "+tr.Hex(a)+" "+tr.Hex(b)+" "+tr.Hex(c), true, natTags3(a, b, c, "random-long-triples")...)
 				}
+			}
+			// digit runs at the limits of int64 / uint64 / 18-20 digits, bare, with leading zeros
+			// (a run of 40 zeros in front of a small number is inside the domain) and embedded
+			br := boundaryRuns()
+			var forms []string
+			for _, r := range br {
+				forms = append(forms, r, "00"+r, "a"+r, r+"/", "a"+r+"b7")
+			}
+			forms = append(forms, strings.Repeat("0", 40)+"12", strings.Repeat("0", 19), strings.Repeat("0", 25)+"9223372036854775807",
+				strings.Repeat("0", 25)+"9223372036854775808", "a"+strings.Repeat("0", 30)+"b")
+			for _, a := range br {
+				for _, b := range br {
+					g.Emit("C "+tr.Hex(a)+" "+tr.Hex(b), true, natTags(a, b, "int-boundary-pairs")...)
+				}
+			}
+			for i := 0; i < g.Scale(4000, 100000); i++ {
+				a, b, c := tr.Pick(g.R, forms), tr.Pick(g.R, forms), tr.Pick(g.R, forms)
+				g.Emit("C "+tr.Hex(a)+" "+tr.Hex(b), true, natTags(a, b, "int-boundary-forms")...)
+				g.Emit("X "+tr.Hex(a)+" "+tr.Hex(b)+" "+tr.Hex(c), true, natTags3(a, b, c, "int-boundary-triples")...)
 			}
 		})
 }
